@@ -237,6 +237,7 @@ var optionReductions = []func(*Scenario) bool{
 	func(c *Scenario) bool { ok := c.Options.NotAllowed; c.Options.NotAllowed = false; return ok },
 	func(c *Scenario) bool { ok := c.Options.Fallback; c.Options.Fallback = false; return ok },
 	func(c *Scenario) bool { ok := c.Options.EncodedPath; c.Options.EncodedPath = false; return ok },
+	func(c *Scenario) bool { ok := c.Options.Wrapped; c.Options.Wrapped = false; return ok },
 	func(c *Scenario) bool {
 		ok := c.Options.Caching
 		c.Options.Caching, c.Options.Capacity = false, 0
